@@ -20,3 +20,9 @@ Definition times_nonneg (langs : list (list ocap)) : bool :=
   forallb (forallb (fun c => (0 <=? oc_start c) && (0 <=? oc_end c))) langs.
 Definition mdvd_dom (langs : list (list ocap)) : bool :=
   match concat langs with [] => false | _ => true end && times_nonneg langs && caps_free before_mdvd langs.
+
+(* DFXP / SAMI skeletons: the documents come out of bs4; what the sniffers need of them is the closing </tt> of the root
+   element (DFXP) and the opening <sami of the root element with no earlier marker behind it (SAMI) *)
+Definition dfxp_document (pre post : str) : str := pre ++ dfxp_marker ++ post.
+Definition before_sami : list (str * bool) := [(dfxp_marker, true); (vtt_marker, false)].
+Definition sami_document (rest : str) : str := sami_marker ++ rest.
